@@ -348,6 +348,14 @@ def gen_program(seed, size=12, features=None):
             a, s = int_expr(ft[fi], sc_, 1)
             out_a.append({"k": "assign", "lv": {"k": "field", "e": {"k": "var", "n": m}, "f": "AB"[fi]}, "e": a})
             out_s.append(pad + "%s.%s = %s;" % (m, "AB"[fi], s))
+        elif k < 0.7:
+            # whole-value assignment of a literal that reads the target: the right-hand side is evaluated first
+            a, s_ = int_expr(ft[0], sc_, 1)
+            fa = [{"n": "A", "e": a},
+                  {"n": "B", "e": {"k": "cast", "e": {"k": "field", "e": {"k": "var", "n": n}, "f": "A"}, "ty": tyj(ft[1])}
+                   if ft[0] != ft[1] else {"k": "field", "e": {"k": "var", "n": n}, "f": "A"}}]
+            out_a.append({"k": "assign", "lv": {"k": "var", "n": n}, "e": {"k": "struct", "fs": fa}})
+            out_s.append("")
         elif k < 0.8 and g.feat["byval"]:
             # by-value parameter: the callee changes its copy and returns a field sum
             f = "sum_" + sname
@@ -400,6 +408,11 @@ def gen_program(seed, size=12, features=None):
             ln += 1
             out_a.append({"k": "print", "e": {"k": "len", "e": {"k": "var", "n": n}}})
             out_s.append(pad + "io::Println(len(%s));" % n)
+        elif k < 0.58 and kind == "farr" and ln >= 2:
+            # a = [a[ln-1], ..., a[0]]: every element is read before any is stored
+            out_a.append({"k": "assign", "lv": {"k": "var", "n": n},
+                          "e": {"k": "array", "es": [{"k": "index", "e": {"k": "var", "n": n}, "i": lit_ast(BYNAME["i32"], ln - 1 - q)} for q in range(ln)]}})
+            out_s.append("")
         elif k < 0.65 and kind == "farr":
             m = g.fresh("a")
             out_a.append({"k": "let", "n": m, "e": {"k": "var", "n": n}, "dty": "[%d]%s" % (ln, t[0])})
